@@ -40,6 +40,7 @@ pub fn opts(which: Which) -> Opts {
     // two block elements whose tags share a line (`<a> <b>` … `</b> </a>`); with an unwrap-block parent this leaves the domain and is counted
     o.join_pct = 8;
     o.multiline_tag_pct = 12;
+    o.close_attr_pct = 10;
     o
 }
 
